@@ -195,13 +195,82 @@ Proof.
   rewrite !rtd_quartic_expand in H. unfold cvd_neg. lra.
 Qed.
 
-(* _get_negative_real_root on an answer of polyroots that satisfies negative_roots_ok *)
-Lemma is_negative_real_true : forall z,
-  is_negative_real z = true <-> snd z = 0 /\ fst z < 0.
+(* ------------------------------------------------------------------------ *)
+(* RTD: the filter  r.real < 1e-9  (repair 874ad35 of defect D23)             *)
+
+Lemma RTD_ROOT_TOLERANCE_pos : 0 < RTD_ROOT_TOLERANCE.
+Proof. unfold RTD_ROOT_TOLERANCE. lra. Qed.
+
+(* For a resistance strictly below R0 the quartic is positive on
+   [0, tolerance): p(x) = (r0 - rt) + r0 x (a + b x + c x^2 (x - 100)), and
+   a + b x >= a + b tolerance >= 0,  c x^2 (x - 100) >= 0.
+   The parameter condition  a + b * tolerance >= 0  (with b < 0 it gives
+   a > 0) is needed: see rtd_tolerance_condition_needed below. *)
+Lemma rtd_quartic_pos_near_zero : forall a b c r0 rt x,
+  r0 > 0 -> b < 0 -> c < 0 -> a + b * RTD_ROOT_TOLERANCE >= 0 ->
+  rt < r0 -> 0 <= x < RTD_ROOT_TOLERANCE ->
+  rtd_quartic a b c r0 rt x > 0.
 Proof.
-  intros [re im]. unfold is_negative_real. cbn [fst snd].
-  destruct (Req_EM_T im 0) as [E|N]; [destruct (Rlt_dec re 0) as [L|G]|]; split; intros H;
-    try discriminate; try tauto; try reflexivity.
+  intros a b c r0 rt x Hr Hb Hc Hab Hrt [Hx0 Hx1].
+  pose proof RTD_ROOT_TOLERANCE_pos as Htol.
+  assert (Htol1 : RTD_ROOT_TOLERANCE < 100) by (unfold RTD_ROOT_TOLERANCE; lra).
+  rewrite rtd_quartic_expand.
+  replace (r0 * (1 + a * x + b * x ^ 2 + c * (x - 100) * x ^ 3) - rt)
+    with ((r0 - rt) + r0 * (x * ((a + b * x) + (- c) * ((100 - x) * (x * x))))) by ring.
+  assert (H1 : 0 <= a + b * x) by nra.
+  assert (H2 : 0 <= x * x) by nra.
+  assert (H3 : 0 <= (100 - x) * (x * x)) by (apply Rmult_le_pos; lra).
+  assert (H4 : 0 <= (- c) * ((100 - x) * (x * x))) by (apply Rmult_le_pos; lra).
+  assert (H5 : 0 <= x * ((a + b * x) + (- c) * ((100 - x) * (x * x))))
+    by (apply Rmult_le_pos; lra).
+  assert (H6 : 0 <= r0 * (x * ((a + b * x) + (- c) * ((100 - x) * (x * x)))))
+    by (apply Rmult_le_pos; lra).
+  lra.
+Qed.
+
+(* hence every real root below the tolerance is negative ... *)
+Lemma rtd_small_root_negative : forall a b c r0 rt x,
+  r0 > 0 -> b < 0 -> c < 0 -> a + b * RTD_ROOT_TOLERANCE >= 0 ->
+  rt < r0 -> x < RTD_ROOT_TOLERANCE -> rtd_quartic a b c r0 rt x = 0 -> x < 0.
+Proof.
+  intros a b c r0 rt x Hr Hb Hc Hab Hrt Hx Ex.
+  destruct (Rlt_dec x 0) as [L|G]; [exact L | exfalso].
+  pose proof (rtd_quartic_pos_near_zero a b c r0 rt x Hr Hb Hc Hab Hrt) as H.
+  lra.
+Qed.
+
+(* ... and, for the resistance of a temperature T < 0, equals T *)
+Lemma rtd_small_root_is_T : forall a b c r0 t x,
+  r0 > 0 -> a > 0 -> b < 0 -> c < 0 -> a + b * RTD_ROOT_TOLERANCE >= 0 -> t < 0 ->
+  x < RTD_ROOT_TOLERANCE -> rtd_quartic a b c r0 (cvd_neg r0 a b c t) x = 0 -> x = t.
+Proof.
+  intros a b c r0 t x Hr Ha Hb Hc Hab Ht Hx Ex.
+  apply (rtd_negative_root_is_T a b c r0 t x); try assumption.
+  apply (rtd_small_root_negative a b c r0 (cvd_neg r0 a b c t)); try assumption.
+  now apply cvd_neg_lt_r0.
+Qed.
+
+(* _get_negative_real_root on an answer of polyroots that satisfies small_roots_ok *)
+Lemma is_small_real_true : forall z,
+  is_small_real z = true <-> snd z = 0 /\ fst z < RTD_ROOT_TOLERANCE.
+Proof.
+  intros [re im]. unfold is_small_real. cbn [fst snd].
+  destruct (Req_EM_T im 0) as [E|N]; [destruct (Rlt_dec re RTD_ROOT_TOLERANCE) as [L|G]|];
+    split; intros H; try discriminate; try tauto; try reflexivity.
+Qed.
+
+Lemma is_small_real_false : forall z,
+  is_small_real z = false <-> snd z <> 0 \/ RTD_ROOT_TOLERANCE <= fst z.
+Proof.
+  intros z. pose proof (is_small_real_true z) as H.
+  destruct (is_small_real z); split; intros H'.
+  - discriminate.
+  - exfalso. destruct H as [H _]. destruct (H eq_refl) as [E L]. destruct H' as [N|G]; [tauto | lra].
+  - destruct (Req_EM_T (snd z) 0) as [E|N]; [|now left].
+    right. destruct (Rle_dec RTD_ROOT_TOLERANCE (fst z)) as [G|L]; [exact G | exfalso].
+    destruct H as [_ H]. assert (true = false) by (symmetry; apply H; split; [exact E | lra]).
+    discriminate.
+  - reflexivity.
 Qed.
 
 Lemma nodup_all_equal : forall (A : Type) (l : list A) (z : A),
@@ -215,40 +284,156 @@ Proof.
 Qed.
 
 Lemma get_negative_real_root_unique : forall roots cs t,
-  negative_roots_ok roots cs ->
-  t < 0 -> polyval t cs = 0 ->
-  (forall x, x < 0 -> polyval x cs = 0 -> x = t) ->
+  small_roots_ok roots cs ->
+  t < RTD_ROOT_TOLERANCE -> polyval t cs = 0 ->
+  (forall x, x < RTD_ROOT_TOLERANCE -> polyval x cs = 0 -> x = t) ->
   get_negative_real_root roots = Some t.
 Proof.
   intros roots cs t [Hnd Hiff] Ht Et Huniq. unfold get_negative_real_root.
-  rewrite (nodup_all_equal _ (filter is_negative_real roots) (t, 0)).
+  rewrite (nodup_all_equal _ (filter is_small_real roots) (t, 0)).
   - reflexivity.
   - exact Hnd.
   - apply filter_In. split.
     + apply (Hiff t Ht). exact Et.
-    + apply is_negative_real_true. cbn. split; [reflexivity | exact Ht].
-  - intros [re im] Hin. apply filter_In in Hin. destruct Hin as [Hin Hneg].
-    apply is_negative_real_true in Hneg. cbn [fst snd] in Hneg. destruct Hneg as [Him Hre].
+    + apply is_small_real_true. cbn. split; [reflexivity | exact Ht].
+  - intros [re im] Hin. apply filter_In in Hin. destruct Hin as [Hin Hsm].
+    apply is_small_real_true in Hsm. cbn [fst snd] in Hsm. destruct Hsm as [Him Hre].
     subst im. f_equal. apply Huniq; [exact Hre|]. apply (Hiff re Hre). exact Hin.
 Qed.
 
 Lemma rtd_scale_neg : forall polyroots r0 a b c t i lead w,
-  r0 > 0 -> a > 0 -> b < 0 -> c < 0 -> t < 0 -> i <> 0 ->
-  negative_roots_ok
+  r0 > 0 -> a > 0 -> b < 0 -> c < 0 -> a + b * RTD_ROOT_TOLERANCE >= 0 -> t < 0 -> i <> 0 ->
+  small_roots_ok
     (polyroots (rtd_quartic_coefficients a b c r0 (cvd r0 a b c t)))
     (rtd_quartic_coefficients a b c r0 (cvd r0 a b c t)) ->
   rtd_scale polyroots i r0 a b c lead (wiring_code w)
             (current_excitation_voltage i w lead (cvd r0 a b c t)) = Some t.
 Proof.
-  intros pr r0 a b c t i lead w Hr Ha Hb Hc Ht Hi Hok.
+  intros pr r0 a b c t i lead w Hr Ha Hb Hc Hab Ht Hi Hok.
   unfold rtd_scale. rewrite rtd_r_t_of_voltage by exact Hi.
   revert Hok. unfold cvd. destruct (Rle_dec 0 t) as [Hp|_]; [lra|]. intro Hok.
   destruct (Rle_dec r0 (cvd_neg r0 a b c t)) as [Hge|_].
   - pose proof (cvd_neg_lt_r0 r0 a b c t Hr Ha Hb Hc Ht). lra.
   - unfold solve_quartic_form.
-    apply (get_negative_real_root_unique _ _ t Hok Ht).
-    + apply rtd_quartic_root.
-    + intros x Hx Ex. now apply (rtd_negative_root_is_T a b c r0 t x).
+    pose proof RTD_ROOT_TOLERANCE_pos as Htol.
+    apply (get_negative_real_root_unique _ _ t Hok); [lra | apply rtd_quartic_root |].
+    intros x Hx Ex. now apply (rtd_small_root_is_T a b c r0 t x).
+Qed.
+
+(* ------------------------------------------------------------------------ *)
+(* RTD: what the repair is for.  An answer of polyroots whose only real entry
+   below the tolerance is x with 0 <= x < tolerance (the root near zero of a
+   resistance a few ulp below R0, found as 0.0 or as a tiny positive number):
+   the code returns x; before the repair it raised ValueError.               *)
+
+(* RtdScaling._get_negative_real_root before 874ad35:
+       filtered = [r for r in roots if not np.iscomplex(r) and r.real < 0.0] *)
+Definition is_negative_real (z : R * R) : bool :=
+  if Req_EM_T (snd z) 0 then (if Rlt_dec (fst z) 0 then true else false) else false.
+
+Definition get_negative_real_root_before_repair (roots : list (R * R)) : option R :=
+  match filter is_negative_real roots with
+  | [z] => Some (fst z)
+  | _ => None
+  end.
+
+Definition rtd_scale_before_repair (polyroots : list R -> list (R * R))
+           (current_excitation r_0 a b c lead_wire_resistance : R)
+           (resistance_configuration : Z) (v : R) : option R :=
+  let r_t := rtd_r_t current_excitation lead_wire_resistance resistance_configuration v in
+  if Rle_dec r_0 r_t then Some (rtd_scale_pos a b r_0 r_t)
+  else get_negative_real_root_before_repair (polyroots (rtd_quartic_coefficients a b c r_0 r_t)).
+
+Lemma is_negative_real_true : forall z,
+  is_negative_real z = true <-> snd z = 0 /\ fst z < 0.
+Proof.
+  intros [re im]. unfold is_negative_real. cbn [fst snd].
+  destruct (Req_EM_T im 0) as [E|N]; [destruct (Rlt_dec re 0) as [L|G]|]; split; intros H;
+    try discriminate; try tauto; try reflexivity.
+Qed.
+
+Lemma is_negative_real_small : forall z, is_negative_real z = true -> is_small_real z = true.
+Proof.
+  intros z H. apply is_negative_real_true in H. apply is_small_real_true.
+  pose proof RTD_ROOT_TOLERANCE_pos. split; [tauto | lra].
+Qed.
+
+Lemma filter_none : forall (A : Type) (f : A -> bool) (l : list A),
+  (forall z, In z l -> f z = false) -> filter f l = [].
+Proof.
+  intros A f l. induction l as [|y l IH]; intros H; [reflexivity|].
+  cbn [filter]. rewrite (H y) by now left. apply IH. intros z Hz. apply H. now right.
+Qed.
+
+(* the one entry that passes the filter, anywhere in the list *)
+Lemma filter_single : forall (A : Type) (f : A -> bool) (l1 l2 : list A) (z : A),
+  f z = true -> (forall y, In y (l1 ++ l2) -> f y = false) ->
+  filter f (l1 ++ z :: l2) = [z].
+Proof.
+  intros A f l1 l2 z Hz Hrest. rewrite filter_app. cbn [filter]. rewrite Hz.
+  rewrite (filter_none A f l1) by (intros y Hy; apply Hrest, in_or_app; now left).
+  rewrite (filter_none A f l2) by (intros y Hy; apply Hrest, in_or_app; now right).
+  reflexivity.
+Qed.
+
+Lemma get_negative_real_root_small_accepted : forall l1 l2 x,
+  x < RTD_ROOT_TOLERANCE ->
+  (forall z, In z (l1 ++ l2) -> snd z <> 0 \/ RTD_ROOT_TOLERANCE <= fst z) ->
+  get_negative_real_root (l1 ++ (x, 0) :: l2) = Some x.
+Proof.
+  intros l1 l2 x Hx Hrest. unfold get_negative_real_root.
+  rewrite (filter_single _ is_small_real l1 l2 (x, 0)); [reflexivity | |].
+  - apply is_small_real_true. cbn. split; [reflexivity | exact Hx].
+  - intros y Hy. apply is_small_real_false. now apply Hrest.
+Qed.
+
+Lemma get_negative_real_root_before_repair_rejects : forall l1 l2 x,
+  0 <= x ->
+  (forall z, In z (l1 ++ l2) -> snd z <> 0 \/ RTD_ROOT_TOLERANCE <= fst z) ->
+  get_negative_real_root_before_repair (l1 ++ (x, 0) :: l2) = None.
+Proof.
+  intros l1 l2 x Hx Hrest. unfold get_negative_real_root_before_repair.
+  rewrite (filter_none _ is_negative_real); [reflexivity|].
+  intros z Hz. destruct (is_negative_real z) eqn:E; [exfalso | reflexivity].
+  apply is_negative_real_true in E. destruct E as [Eim Ere].
+  pose proof RTD_ROOT_TOLERANCE_pos as Htol.
+  apply in_app_or in Hz. destruct Hz as [Hz|[Hz|Hz]].
+  - destruct (Hrest z) as [N|G]; [apply in_or_app; now left | tauto | lra].
+  - subst z. cbn [fst] in Ere. lra.
+  - destruct (Hrest z) as [N|G]; [apply in_or_app; now right | tauto | lra].
+Qed.
+
+Lemma rtd_scale_small_root_accepted : forall polyroots i r0 a b c lead cfg v x l1 l2,
+  rtd_r_t i lead cfg v < r0 ->
+  polyroots (rtd_quartic_coefficients a b c r0 (rtd_r_t i lead cfg v)) = l1 ++ (x, 0) :: l2 ->
+  0 <= x < RTD_ROOT_TOLERANCE ->
+  (forall z, In z (l1 ++ l2) -> snd z <> 0 \/ RTD_ROOT_TOLERANCE <= fst z) ->
+  rtd_scale polyroots i r0 a b c lead cfg v = Some x /\
+  rtd_scale_before_repair polyroots i r0 a b c lead cfg v = None.
+Proof.
+  intros pr i r0 a b c lead cfg v x l1 l2 Hrt Hroots [Hx0 Hx1] Hrest.
+  unfold rtd_scale, rtd_scale_before_repair, solve_quartic_form.
+  destruct (Rle_dec r0 (rtd_r_t i lead cfg v)) as [Hge|_]; [lra|].
+  rewrite Hroots. split.
+  - now apply get_negative_real_root_small_accepted.
+  - now apply get_negative_real_root_before_repair_rejects.
+Qed.
+
+(* where the answer has a negative real entry the repair changes nothing as
+   long as no real entry lies in [0, tolerance) *)
+Lemma get_negative_real_root_repair_conservative : forall roots,
+  (forall z, In z roots -> snd z = 0 -> fst z < 0 \/ RTD_ROOT_TOLERANCE <= fst z) ->
+  get_negative_real_root roots = get_negative_real_root_before_repair roots.
+Proof.
+  intros roots H. unfold get_negative_real_root, get_negative_real_root_before_repair.
+  replace (filter is_small_real roots) with (filter is_negative_real roots); [reflexivity|].
+  apply filter_ext_in. intros z Hz.
+  destruct (is_small_real z) eqn:E.
+  - apply is_small_real_true in E. destruct E as [Eim Ere].
+    apply is_negative_real_true. split; [exact Eim|].
+    destruct (H z Hz Eim) as [L|G]; [exact L | lra].
+  - destruct (is_negative_real z) eqn:E'; [|reflexivity].
+    apply is_negative_real_small in E'. congruence.
 Qed.
 
 (* ------------------------------------------------------------------------ *)
@@ -287,23 +472,55 @@ Proof.
   destruct (Rle_dec r0 (rtd_r_t i lead cfg v)) as [_|N]; [exact Hy | contradiction].
 Qed.
 
+(* the same bracket for the filter of the code: with the resistance below R0
+   the root found is the only real root below the tolerance *)
+Lemma rtd_quartic_bracket_small : forall a b c r0 rt lo hi,
+  r0 > 0 -> a > 0 -> b < 0 -> c < 0 -> a + b * RTD_ROOT_TOLERANCE >= 0 -> rt < r0 ->
+  lo < hi -> hi <= 0 ->
+  rtd_quartic a b c r0 rt lo < 0 -> 0 < rtd_quartic a b c r0 rt hi ->
+  exists t, lo < t < hi /\ rtd_quartic a b c r0 rt t = 0 /\
+            forall x, x < RTD_ROOT_TOLERANCE -> rtd_quartic a b c r0 rt x = 0 -> x = t.
+Proof.
+  intros a b c r0 rt lo hi Hr Ha Hb Hc Hab Hrt Hlh Hhi Qlo Qhi.
+  destruct (rtd_quartic_bracket a b c r0 rt lo hi Hr Ha Hb Hc Hlh Hhi Qlo Qhi)
+    as [t [Ht [Et Huniq]]].
+  exists t. repeat split; try assumption; try tauto.
+  intros x Hx Ex. apply Huniq; [|exact Ex].
+  now apply (rtd_small_root_negative a b c r0 rt x).
+Qed.
+
 Lemma rtd_scale_corr_neg : forall pr i r0 a b c lead cfg v y tol lo hi,
-  r0 > 0 -> a > 0 -> b < 0 -> c < 0 ->
+  r0 > 0 -> a > 0 -> b < 0 -> c < 0 -> a + b * RTD_ROOT_TOLERANCE >= 0 ->
   rtd_r_t i lead cfg v < r0 ->
   lo < hi -> hi <= 0 -> y - tol <= lo -> hi <= y + tol ->
   rtd_quartic a b c r0 (rtd_r_t i lead cfg v) lo < 0 ->
   0 < rtd_quartic a b c r0 (rtd_r_t i lead cfg v) hi ->
-  negative_roots_ok (pr (rtd_quartic_coefficients a b c r0 (rtd_r_t i lead cfg v)))
-                    (rtd_quartic_coefficients a b c r0 (rtd_r_t i lead cfg v)) ->
+  small_roots_ok (pr (rtd_quartic_coefficients a b c r0 (rtd_r_t i lead cfg v)))
+                 (rtd_quartic_coefficients a b c r0 (rtd_r_t i lead cfg v)) ->
   corr (rtd_scale pr i r0 a b c lead cfg v) y tol.
 Proof.
-  intros pr i r0 a b c lead cfg v y tol lo hi Hr Ha Hb Hc Hrt Hlh Hhi Hlo' Hhi' Qlo Qhi Hok.
+  intros pr i r0 a b c lead cfg v y tol lo hi Hr Ha Hb Hc Hab Hrt Hlh Hhi Hlo' Hhi' Qlo Qhi Hok.
   unfold rtd_scale. destruct (Rle_dec r0 (rtd_r_t i lead cfg v)) as [Hge|_]; [lra|].
-  destruct (rtd_quartic_bracket a b c r0 _ lo hi Hr Ha Hb Hc Hlh Hhi Qlo Qhi)
+  destruct (rtd_quartic_bracket_small a b c r0 _ lo hi Hr Ha Hb Hc Hab Hrt Hlh Hhi Qlo Qhi)
     as [t [[Ht1 Ht2] [Et Huniq]]].
   unfold solve_quartic_form.
+  pose proof RTD_ROOT_TOLERANCE_pos as Htol.
   rewrite (get_negative_real_root_unique _ _ t Hok); [| lra | exact Et | exact Huniq].
   unfold corr. apply Rabs_le. lra.
+Qed.
+
+(* The parameter condition of rtd_quartic_pos_near_zero cannot be dropped:
+   with A = 1, B = -10^10, C = -1, R0 = 1 the resistance 1 - 10^-12 is below
+   R0 and the quartic has a root in [0, 5e-10], besides its negative one. *)
+Lemma rtd_tolerance_condition_needed :
+  exists x, 0 <= x < RTD_ROOT_TOLERANCE /\ rtd_quartic 1 (-1e10) (-1) 1 (1 - 1e-12) x = 0.
+Proof.
+  destruct (IVT_cor (rtd_quartic 1 (-1e10) (-1) 1 (1 - 1e-12)) 0 5e-10)
+    as [x [[Hx0 Hx1] Ex]].
+  - apply rtd_quartic_continuous.
+  - lra.
+  - rewrite !rtd_quartic_expand. nra.
+  - exists x. unfold RTD_ROOT_TOLERANCE. split; [lra | exact Ex].
 Qed.
 
 (* ------------------------------------------------------------------------ *)
@@ -1016,4 +1233,31 @@ Lemma rtd_chain_branch : forall r0 a b c t i lead w,
 Proof.
   intros r0 a b c t i lead w Hr Ha Hb Hc Hi Ht. rewrite rtd_chain_r_t_neg by assumption.
   now apply cvd_neg_lt_r0.
+Qed.
+
+(* the same for the filter of the code: any real root below the tolerance *)
+Lemma rtd_chain_unique_small : forall r0 a b c t i lead w x,
+  r0 > 0 -> a > 0 -> b < 0 -> c < 0 -> a + b * RTD_ROOT_TOLERANCE >= 0 -> i <> 0 -> t < 0 ->
+  x < RTD_ROOT_TOLERANCE ->
+  polyval x (rtd_quartic_coefficients a b c r0
+               (rtd_r_t i lead (wiring_code w)
+                        (current_excitation_voltage i w lead (cvd r0 a b c t)))) = 0 ->
+  x = t.
+Proof.
+  intros r0 a b c t i lead w x Hr Ha Hb Hc Hab Hi Ht Hx Ex.
+  rewrite rtd_chain_r_t_neg in Ex by assumption.
+  now apply (rtd_small_root_is_T a b c r0 t x).
+Qed.
+
+(* no real root in [0, tolerance) for the voltage of a temperature below 0 *)
+Lemma rtd_chain_no_root_near_zero : forall r0 a b c t i lead w x,
+  r0 > 0 -> a > 0 -> b < 0 -> c < 0 -> a + b * RTD_ROOT_TOLERANCE >= 0 -> i <> 0 -> t < 0 ->
+  0 <= x < RTD_ROOT_TOLERANCE ->
+  polyval x (rtd_quartic_coefficients a b c r0
+               (rtd_r_t i lead (wiring_code w)
+                        (current_excitation_voltage i w lead (cvd r0 a b c t)))) > 0.
+Proof.
+  intros r0 a b c t i lead w x Hr Ha Hb Hc Hab Hi Ht Hx.
+  apply (rtd_quartic_pos_near_zero a b c r0); try assumption.
+  now apply rtd_chain_branch.
 Qed.
